@@ -1,16 +1,16 @@
 CONSTANTS
-  MaxObj = 3
+  MaxObj = 4
   MaxSteps = 6
-  CreateClasses = {"Mid","Leaf","DD"}
-  QueryClasses = {"DA","Base","Mid"}
+  CreateClasses = {"P","C","DD","Mid"}
+  QueryClasses = {"DA","Base","P"}
   AllowClear = TRUE
-  AllowRelate = FALSE
+  AllowRelate = TRUE
   AllowQueryX = FALSE
   AllowSweep = TRUE
   AllowDeclare = FALSE
-  AllowDetach = FALSE
+  AllowDetach = TRUE
   AllowInfer = FALSE
-  CopyModes = {"copy","from_dao"}
+  CopyModes = {}
   UnregisteredModes = {}
   Hist = FALSE
   PopIdOfNone = FALSE
